@@ -174,7 +174,7 @@ Fixpoint paint_row (o : oracle) (r c skip : nat) (cells : list cell) : list cmd 
           | KChar ch =>
               match cw o ch with
               | O => paint_row o r (S c) 0 rest
-              | S k => [CCursorTo r c; CFace (cface x); CChar ch] ++ paint_row o r (S c) k rest
+              | S k => [CFace (cface x); CCursorTo r c; CChar ch] ++ paint_row o r (S c) k rest
               end
           | _ => paint_row o r (S c) 0 rest
           end
